@@ -394,7 +394,11 @@ def cmdSparseOps (a : Args) : String :=
       let accepted := match state with
         | some st => decide (file.length = len) && decide (st.length = chunks.length)
         | none => false
-      let s' := SparseSt.open fetch chunks nullID len file state (if withInit then saved else none) s.calls
+      -- "i": the state-init file is a copy of the state file as it was before this start; "j": it is the state-save
+      -- file itself, which a re-initialised sparse file has blanked by the time it reads it
+      let sameFile := op.endsWith "j"
+      let init := if withInit then saved else if sameFile then some (List.replicate chunks.length false) else none
+      let s' := SparseSt.open fetch chunks nullID len file state init s.calls
       -- the pre-load runs in the background; `WriteState` at the end of `NewSparseFile` may see none of it yet
       let saved' := if accepted then saved else some (List.replicate chunks.length false)
       (s', saved', out ++ ["o"], down)
